@@ -299,6 +299,8 @@ def exec_once(case: dict, plan: dict | None, ref_new: bytes | None, *, root: str
 
         seam = fsseam.FsSeam(root, sched=sched, faults=plan.get("fs", []), hide_fileno=case["sim"].get("hide_fileno", False), hide_copy_file_range=case["sim"].get("hide_cfr", False), on_boundary=on_boundary)
         seam.cfr_cap = case["sim"].get("cfr_cap")
+        seam.track_reads = True
+        seam.read_faults = [dict(f) for f in plan.get("read", [])]
         cb = None
         if options.get("callback") or plan.get("callback") is not None:
             cbp = plan.get("callback") or {}
@@ -329,6 +331,7 @@ def exec_once(case: dict, plan: dict | None, ref_new: bytes | None, *, root: str
         out["effects"] = [(k, kind, rel) for (k, kind, rel, _t) in seam.effects]
         out["fired"] = list(seam.fired)
         out["cfr_capped"] = seam.cfr_capped_calls
+        out["read_counts"] = dict(seam.read_kind_counts)
         out["boundaries"] = state["boundaries"]
         if sched is not None:
             out["steps"] = sched.steps
@@ -520,6 +523,12 @@ def enumerate_plans(case: dict, dry: dict, rng, limit: int) -> tuple[list[dict],
             plans.append({"fs": [{"at": k, "errno": en, "mode": "raise"}]})
         if kind in ("write", "copy_file_range"):
             plans.append({"fs": [{"at": k, "errno": "ENOSPC", "mode": "short"}]})
+    # read-side calls of the save (opening / mapping / reading source data files, stat and samefile of input
+    # tensors' paths): each fails once, transiently, with every errno legal for it
+    for kind, count in sorted((dry.get("read_counts") or {}).items()):
+        for nth in range(min(count, 8)):
+            for en in fsseam.READ_FAULTABLE.get(kind, ()):
+                plans.append({"read": [{"kind": kind, "nth": nth, "errno": en}]})
     thr = case["options"].get("size_threshold_bytes", 0)
     for i, s in enumerate(case["tensors"]):
         if "same_as" in s:
@@ -538,7 +547,7 @@ def enumerate_plans(case: dict, dry: dict, rng, limit: int) -> tuple[list[dict],
         singles = list(plans)
         for _ in range(min(6, len(singles))):
             a, b = rng.choice(singles), rng.choice(singles)
-            merged = {"fs": a.get("fs", []) + b.get("fs", []), "tensor": a.get("tensor", []) + b.get("tensor", [])}
+            merged = {"fs": a.get("fs", []) + b.get("fs", []), "tensor": a.get("tensor", []) + b.get("tensor", []), "read": a.get("read", []) + b.get("read", [])}
             if a.get("callback") or b.get("callback"):
                 merged["callback"] = a.get("callback") or b.get("callback")
             plans.append(merged)
@@ -642,7 +651,7 @@ def run_case(case: dict) -> dict:
             inc("buggify_copy_file_range_short_counts", r["cfr_capped"])
         fired_any = False
         for f in r["fired"]:
-            inc(f"fault_{f['kind']}_{f['errno']}" + ("_short" if f["mode"] == "short" else ""))
+            inc(("fault_read_side_" if f["k"] == -1 else "fault_") + f"{f['kind']}_{f['errno']}" + ("_short" if f["mode"] == "short" else ""))
             fired_any = True
         if r.get("collab_fired"):
             inc("fault_tensor_or_callback_raised")
